@@ -30,11 +30,11 @@ func (s *Server) serveListKeys(rw http.ResponseWriter, req *http.Request) error 
 		if keyConf.Hide {
 			continue
 		}
-		if keyConf.Alias != "" {
-			keyConf = s.Config.Keys[keyConf.Alias]
-			if keyConf == nil {
-				continue
-			}
+		// resolve the name the same way signing does, so that only keys that
+		// can actually be used are listed
+		keyConf, err := s.Config.GetKey(key)
+		if err != nil {
+			continue
 		}
 		if !keyConf.Hide && userInfo.Allowed(keyConf) {
 			keys = append(keys, key)
